@@ -331,7 +331,7 @@ func (w *world) drawValidators(h house) {
 	n := rapid.IntRange(1, 4).Draw(t, "nValidators")
 	for i := 0; i < n; i++ {
 		vp := &valPlan{}
-		dev := rapid.IntRange(0, 5).Draw(t, "valDeviates") // 3, 4, 5: typ, iss, aud differ from the house style
+		dev := rapid.IntRange(0, 9).Draw(t, "valDeviates") // 7, 8, 9: typ, iss, aud differ from the house style
 		mode := func(label string, pool []string, hv int, deviate bool) (*string, bool) {
 			if deviate {
 				if rapid.Bool().Draw(t, label+"None") {
@@ -349,9 +349,9 @@ func (w *world) drawValidators(h house) {
 			s := pool[hv]
 			return &s, false
 		}
-		vp.o.ExpectedTyp, vp.o.IgnoreTyp = mode("typ", typPool, h.typ, dev == 3)
-		vp.o.ExpectedIss, vp.o.IgnoreIss = mode("iss", issPool, h.iss, dev == 4)
-		vp.o.ExpectedAud, vp.o.IgnoreAud = mode("aud", audPool, h.aud, dev == 5)
+		vp.o.ExpectedTyp, vp.o.IgnoreTyp = mode("typ", typPool, h.typ, dev == 7)
+		vp.o.ExpectedIss, vp.o.IgnoreIss = mode("iss", issPool, h.iss, dev == 8)
+		vp.o.ExpectedAud, vp.o.IgnoreAud = mode("aud", audPool, h.aud, dev == 9)
 		vp.o.AllowMissingExpiration = rapid.IntRange(0, 3).Draw(t, "allowMissingExp") == 0
 		vp.o.ExpectIssuedInThePast = rapid.Bool().Draw(t, "expectIssuedInThePast")
 		vp.o.ClockSkew = time.Duration(rapid.SampledFrom([]int64{0, 1, sec1, 10 * min1, 0, sec1, 37*sec1 + 5, 10*min1 - 1}).Draw(t, "skew"))
@@ -496,11 +496,11 @@ func (w *world) drawTokens(h house) {
 		tp.base = floorDiv(t0ns+tp.issueAt+tp.skewNs, sec1)
 		// claims
 		c := map[string]any{}
-		dev := rapid.IntRange(0, 5).Draw(t, "tokDeviates")
-		if s := pick(t, "tokIss", issPool, h.iss, dev == 4); s != nil {
+		dev := rapid.IntRange(0, 9).Draw(t, "tokDeviates")
+		if s := pick(t, "tokIss", issPool, h.iss, dev == 8); s != nil {
 			c["iss"] = *s
 		}
-		if s := pick(t, "tokAud", audPool, h.aud, dev == 5); s != nil {
+		if s := pick(t, "tokAud", audPool, h.aud, dev == 9); s != nil {
 			switch rapid.IntRange(0, 3).Draw(t, "audShape") {
 			case 0, 1:
 				c["aud"] = *s
@@ -519,7 +519,7 @@ func (w *world) drawTokens(h house) {
 				c["aud"] = l
 			}
 		}
-		tp.typ = pick(t, "tokTyp", typPool, h.typ, dev == 3)
+		tp.typ = pick(t, "tokTyp", typPool, h.typ, dev == 7)
 		if rapid.IntRange(0, 2).Draw(t, "hasSub") == 0 {
 			c["sub"] = rapid.SampledFrom(strPool).Draw(t, "sub")
 		}
